@@ -148,6 +148,7 @@ def _classify(diags, asm):
             continue
         fnlabel = asm.fns[key]['fn'].label
         oid = None
+        scaffold = False
         detail = d.get('rendered', msg)
         if msg.startswith('postcondition not satisfied'):
             for s, info in infos:
@@ -183,6 +184,16 @@ def _classify(diags, asm):
                 oid = f'{fnlabel}/callpre:{req or "?"}'
             if site:
                 oid += f'@{site["repo_file"]}:{site["repo_line"]}'
+            # a call of a `proof fn` (a lemma the unit's own proof script invokes) is scaffolding, not the code's own precondition
+            if not callee:
+                text_lines = asm.text.split('\n')
+                for s, info in infos:
+                    if (s.get('label') or '').startswith('failed precondition') and s.get('line_start'):
+                        for j in range(min(s['line_start'], len(text_lines)) - 1, -1, -1):
+                            m = re.search(r'\bfn\s+\w+', text_lines[j])
+                            if m:
+                                scaffold = 'proof fn' in text_lines[j]
+                                break
         elif 'arithmetic underflow/overflow' in msg or 'division by zero' in msg or 'bit shift' in msg:
             site = None
             for s, info in infos:
@@ -204,9 +215,10 @@ def _classify(diags, asm):
             oid = f'{fnlabel}/termination'
         elif msg.startswith('assertion failed'):
             oid = f'{fnlabel}/ghost-assert'
+            scaffold = True   # (Verus `assert` is ghost: only the unit's own injected proof text has any)
         else:
             oid = f'{fnlabel}/other:{msg[:40]}'
-        failed.append(dict(key=key, id=oid, detail=detail, message=msg))
+        failed.append(dict(key=key, id=oid, detail=detail, message=msg, scaffold=scaffold))
     return failed, undecided
 
 
@@ -362,6 +374,7 @@ def verify_unit(unit, scratch, tier='quick', seed=0, repo=None, vacuity=True):
             if hit:
                 o['status'] = 'failed'
                 o['sites'] = sorted(set(f['id'] for f in hit))
+                o['scaffold_only'] = all(f.get('scaffold') for f in hit)
                 o['detail'] = '\n'.join(f['detail'] for f in hit)
         elif o['kind'] == 'loopinv':
             hit = [f for f in fl if f['id'] == o['id'] or f['id'].endswith('/loopinv')]
